@@ -39,7 +39,7 @@ import (
 	"strings"
 )
 
-const version = "vinstr-12"
+const version = "vinstr-13"
 
 var (
 	repo    = flag.String("repo", "/repo", "repository root")
@@ -163,17 +163,19 @@ type fieldKey struct {
 }
 
 type rw struct {
-	fset        *token.FileSet
-	info        *types.Info
-	pkg         *types.Package
-	file        *ast.File
-	fname       string
-	written     map[fieldKey]bool // fields (and "f*" pointees, and package vars as {"", name}) ever written
-	used        bool              // file needs the vsched import
-	tmp         int
-	prepass     bool
-	recvAllowed map[*ast.UnaryExpr]bool
-	curFunc     string
+	fset           *token.FileSet
+	info           *types.Info
+	pkg            *types.Package
+	file           *ast.File
+	fname          string
+	written        map[fieldKey]bool // fields (and "f*" pointees, and package vars as {"", name}) ever written
+	used           bool              // file needs the vsched import
+	tmp            int
+	prepass        bool
+	recvAllowed    map[*ast.UnaryExpr]bool
+	curFunc        string
+	madeUnbuffered map[*ast.CallExpr]bool
+	replaceExpr    map[ast.Expr]ast.Expr
 }
 
 func instrumentPackage(fset *token.FileSet, imp types.Importer, pj pkgJob, overlay map[string]string) {
@@ -277,9 +279,35 @@ func instrumentPackage(fset *token.FileSet, imp types.Importer, pj pkgJob, overl
 // timers the scheduler does not own stop the run instead of being ignored.
 func (r *rw) rewriteTime(af *ast.File) bool {
 	changed := map[string]bool{}
+	changedAny := false
+	r.madeUnbuffered = map[*ast.CallExpr]bool{}
+	r.replaceExpr = map[ast.Expr]ast.Expr{}
 	ast.Inspect(af, func(n ast.Node) bool {
 		call, ok := n.(*ast.CallExpr)
 		if !ok {
+			return true
+		}
+		if fid, isId := call.Fun.(*ast.Ident); isId {
+			if _, isBuiltin := r.info.Uses[fid].(*types.Builtin); isBuiltin && fid.Name == "make" && len(call.Args) >= 1 {
+				// make(chan T) / make(chan T, 0): an unbuffered channel, modelled as a registered one-slot channel
+				if t := r.info.TypeOf(call.Args[0]); t != nil {
+					if _, isChan := t.Underlying().(*types.Chan); isChan {
+						zero := len(call.Args) == 1
+						if len(call.Args) == 2 {
+							if tv, ok := r.info.Types[call.Args[1]]; ok && tv.Value != nil && tv.Value.String() == "0" {
+								zero = true
+							}
+						}
+						if zero && !r.madeUnbuffered[call] {
+							inner := &ast.CallExpr{Fun: ident("make"), Args: []ast.Expr{call.Args[0], &ast.BasicLit{Kind: token.INT, Value: "1"}}}
+							r.madeUnbuffered[inner] = true
+							wrapped := &ast.TypeAssertExpr{X: &ast.CallExpr{Fun: &ast.SelectorExpr{X: ident("vsched"), Sel: ident("Unbuffered")}, Args: []ast.Expr{inner}}, Type: call.Args[0]}
+							r.replaceExpr[call] = wrapped
+							changedAny = true
+						}
+					}
+				}
+			}
 			return true
 		}
 		sel, ok := call.Fun.(*ast.SelectorExpr)
@@ -296,14 +324,14 @@ func (r *rw) rewriteTime(af *ast.File) bool {
 		}
 		switch pn.Imported().Path() {
 		case "context":
-			if sel.Sel.Name == "WithTimeout" || sel.Sel.Name == "WithDeadline" {
+			if sel.Sel.Name == "WithTimeout" || sel.Sel.Name == "WithDeadline" || sel.Sel.Name == "AfterFunc" {
 				call.Fun = &ast.SelectorExpr{X: ident("vsched"), Sel: ident(sel.Sel.Name)}
 				changed[id.Name+" context.Context"] = true
 			}
 		case "time":
 			switch sel.Sel.Name {
-			case "Sleep":
-				call.Fun = &ast.SelectorExpr{X: ident("vsched"), Sel: ident("Sleep")}
+			case "Sleep", "Now", "Since", "Until":
+				call.Fun = &ast.SelectorExpr{X: ident("vsched"), Sel: ident(sel.Sel.Name)}
 				changed[id.Name+" time.Duration"] = true
 			case "After", "AfterFunc", "NewTimer", "NewTicker", "Tick":
 				unsupported(r.fset, call.Pos(), "time."+sel.Sel.Name+" (a timer the controlled scheduler does not own)")
@@ -311,13 +339,58 @@ func (r *rw) rewriteTime(af *ast.File) bool {
 		}
 		return true
 	})
+	// substitute the rewritten make(chan T) expressions in their parents
+	if len(r.replaceExpr) > 0 {
+		replaceExprs(af, r.replaceExpr)
+	}
 	// keep the imports used
 	for k := range changed {
 		parts := strings.SplitN(k, " ", 2)
 		typ := strings.SplitN(parts[1], ".", 2)[1]
 		af.Decls = append(af.Decls, &ast.GenDecl{Tok: token.VAR, Specs: []ast.Spec{&ast.ValueSpec{Names: []*ast.Ident{ident("_")}, Type: &ast.SelectorExpr{X: ident(parts[0]), Sel: ident(typ)}}}})
 	}
-	return len(changed) > 0
+	return len(changed) > 0 || changedAny
+}
+
+// replaceExprs substitutes expressions (by identity) wherever they occur as operands in f.
+func replaceExprs(f *ast.File, m map[ast.Expr]ast.Expr) {
+	sub := func(e ast.Expr) ast.Expr {
+		if n, ok := m[e]; ok {
+			return n
+		}
+		return e
+	}
+	ast.Inspect(f, func(n ast.Node) bool {
+		switch x := n.(type) {
+		case *ast.AssignStmt:
+			for i := range x.Rhs {
+				x.Rhs[i] = sub(x.Rhs[i])
+			}
+		case *ast.ValueSpec:
+			for i := range x.Values {
+				x.Values[i] = sub(x.Values[i])
+			}
+		case *ast.CallExpr:
+			for i := range x.Args {
+				x.Args[i] = sub(x.Args[i])
+			}
+		case *ast.KeyValueExpr:
+			x.Value = sub(x.Value)
+		case *ast.CompositeLit:
+			for i := range x.Elts {
+				x.Elts[i] = sub(x.Elts[i])
+			}
+		case *ast.ReturnStmt:
+			for i := range x.Results {
+				x.Results[i] = sub(x.Results[i])
+			}
+		case *ast.SendStmt:
+			x.Value = sub(x.Value)
+		case *ast.ParenExpr:
+			x.X = sub(x.X)
+		}
+		return true
+	})
 }
 
 // globalResetInit builds, for a file that declares package-level variables, the declaration
